@@ -1,7 +1,7 @@
 (* C05 — Each manipulation call has exactly the effect an ordered-tree model predicts.
    Pinned statements only.  Model: Model/Store.v, Model/Manip.v. *)
 From Coq Require Import List NArith Permutation.
-From XotV Require Import Model.Base Model.Zipper Model.Access Model.Store Model.Manip Proofs.StoreProofs Proofs.ManipProofs.
+From XotV Require Import Model.Base Model.Zipper Model.Access Model.Store Model.Manip Proofs.StoreProofs Proofs.ManipProofs Proofs.InvSteps Proofs.TreeFrame.
 Import ListNotations.
 Open Scope N_scope.
 
@@ -60,3 +60,15 @@ Theorem C05_set_value_touches_one :
     exists v l1 l2, nodes f = l1 ++ (n, v) :: l2 /\ nodes (fset_val n g f) = l1 ++ (n, g v) :: l2.
 Proof. exact nodes_fset_val. Qed.
 Print Assumptions C05_set_value_touches_one.
+
+(* "no other node is created, lost, reordered or altered", for whole trees: [T] is any run of whole trees of the store (a
+   segment of its top-level list, e.g. one document).  A call of the node-level API none of whose node arguments lies in [T]
+   leaves [T] in the store exactly as it is — for every call (append, prepend, insert_before / insert_after, detach, remove,
+   replace, element_wrap / element_unwrap, clone_node, any_append, all map and node calls, the setters, text_content_mut,
+   creation), any arguments, with consolidation on or off, in every good store. *)
+Theorem C05_trees_not_named_are_untouched :
+  forall T st o, Good st -> (exists A B, store st = fapp A (fapp T B)) ->
+    (forall x, In x (op_args o) -> ~ In x (ids T)) ->
+    exists A' B', store (fst (mstep st o)) = fapp A' (fapp T B').
+Proof. exact tree_frame. Qed.
+Print Assumptions C05_trees_not_named_are_untouched.
